@@ -57,3 +57,5 @@ def check(v, tier, opts):
                      "Linspace::next_back; symbolic kth for the partitions; the aggregate part of winsorize (quantile / median / sigma bounds)")
     kani_engine.decide(v, "C09", tier, opts)
     return v.finish(RULE)
+
+READY = True
